@@ -62,40 +62,55 @@ func AmountFromFloat64(val float64, exp uint32) Amount {
 // the `AmountFromHumanString` method.
 func AmountFromString(val string) (Amount, error) {
 	a := Amount{}
-	n := strings.HasPrefix(val, "-")
-	x := strings.Split(strings.TrimPrefix(val, "-"), ".")
+	s := strings.TrimPrefix(val, "-")
+	x := strings.Split(s, ".")
 	l := len(x)
 	if l > 2 {
 		return a, fmt.Errorf("amount must contain 0 or 1 decimal separators: %v", val)
 	}
 
-	// Parse the "major" part
-	v, err := strconv.ParseInt(x[0], 10, 64)
-	if err != nil {
+	// Check the "major" part
+	if err := checkDigits(x[0]); err != nil {
 		return a, fmt.Errorf("invalid major number '%v', %w", val, err)
 	}
+	digits := x[0]
 	e := uint32(0)
-	v2 := int64(0)
 
-	// Parse the decimal places (if present)
+	// Check the decimal places (if present)
 	if l == 2 {
-		v2, err = strconv.ParseInt(x[1], 10, 64)
-		if err != nil {
+		if err := checkDigits(x[1]); err != nil {
 			return a, fmt.Errorf("invalid decimal number '%v', %w", val, err)
 		}
+		digits += x[1]
 		e = uint32(len(x[1]))
-		v = v * intPow(10, e)
-		v += v2
+	}
+	if len(s) != len(val) {
+		digits = "-" + digits
 	}
 
-	// Prepare the result
-	if n {
-		a.value = -v
-	} else {
-		a.value = v
+	// Parse all the digits in one go so that values that do not fit
+	// are detected instead of silently overflowing.
+	v, err := strconv.ParseInt(digits, 10, 64)
+	if err != nil {
+		return a, fmt.Errorf("invalid amount '%v', %w", val, err)
 	}
+	a.value = v
 	a.exp = e
 	return a, nil
+}
+
+// checkDigits ensures the text only contains one or more decimal digits,
+// strconv.ParseInt would also accept signs.
+func checkDigits(txt string) error {
+	if len(txt) == 0 {
+		return &strconv.NumError{Func: "ParseInt", Num: txt, Err: strconv.ErrSyntax}
+	}
+	for i := 0; i < len(txt); i++ {
+		if txt[i] < '0' || txt[i] > '9' {
+			return &strconv.NumError{Func: "ParseInt", Num: txt, Err: strconv.ErrSyntax}
+		}
+	}
+	return nil
 }
 
 // AmountFromHumanString removes any excess decimal places, commas, or
